@@ -604,7 +604,11 @@ def task_view_pipeline(scratch, tier, seed, logdir):
             expect = ["read"] + [k for k in ("marginalize", "project", "mask", "normalize") if want[k]]
             combos.add(tuple(expect))
             if got != expect:
-                ob.fail("violation", f"options {want}: the spectrum written is {' > '.join(got)} instead of {' > '.join(expect)}")
+                if any(g == "?" for g in got):
+                    # an operation this check does not know: it cannot tell a harmless refactoring from a bug
+                    ob.fail("inconclusive", f"options {want}: unrecognised operation in the pipeline term: {[c[1] for c in chain if c[0] == '?'][:2]}")
+                else:
+                    ob.fail("violation", f"options {want}: the spectrum written is {' > '.join(got)} instead of {' > '.join(expect)}")
                 continue
             for kind, arg in chain:
                 if kind == "mask":
@@ -627,13 +631,13 @@ def task_view_pipeline(scratch, tier, seed, logdir):
                     by_shape = f"field(view, {fld['project']})" in a and "closure" not in a
                     by_ind = "closure@cli/src/view.rs" in a and "map" in a
                     if not (a.startswith("ctor:Shape(") and (by_shape or by_ind)):
-                        ob.fail("violation", "projection target is not Shape(given shape) / Shape(map(closure, individuals)): " + a[:200])
+                        ob.fail("inconclusive", "projection target is not of the recognised form Shape(given shape) / Shape(map(closure, individuals)): " + a[:200])
                 if kind == "marginalize":
                     a = show(unq(arg))
                     keep = "filter" in a and "ctor:Range(0, Spectrum::<Counts>::dimensions(" in a
                     remove = "filter" not in a and f"field(view, {fld['marginalize']})" in a
                     if not ("map::<Axis" in a.replace("sfs_core::array::", "") and (keep or remove)):
-                        ob.fail("violation", "marginalisation axes are not map(Axis, remove) / map(Axis, filter(closure, 0..dimensions)): " + a[:200])
+                        ob.fail("inconclusive", "marginalisation axes are not of the recognised form map(Axis, remove) / map(Axis, filter(closure, 0..dimensions)): " + a[:200])
             # writer arguments
             wa = show(w[0][1][0])
             if f"set_precision(" not in wa or f"field(view, {fld['precision']})" not in wa or f"field(view, {fld['output_format']})" not in wa:
@@ -743,16 +747,25 @@ def task_runner_step(scratch, tier, seed, logdir):
                 kinds["standard"] = 1
                 if p.end != "loopback" or not sites_inc:
                     ob.fail("violation", "Standard site: the loop does not continue with sites + 1")
-                if not (scs.startswith("store(") and "index_mut!mut0(scs, field(as_Standard(" in scs and scs.endswith(", 1.0))") and "Add(deref(" in scs):
-                    ob.fail("violation", "Standard site: the spectrum update is not `scs[counts] += 1.0`: " + scs[:200])
+                if scs == "scs":
+                    ob.fail("violation", "Standard site: the record is not added to the spectrum")
+                elif scs.startswith("store(") and "index_mut!mut0(scs, field(as_Standard(" in scs and "Add(deref(" in scs:
+                    if not scs.endswith(", 1.0))"):
+                        ob.fail("violation", "Standard site: the weight added at the count index is not 1.0: " + scs[-60:])
+                elif re.search(r"AddAssign<&.*Count>>::add_assign!mut0\(scs, field\(as_Standard\(", scs):
+                    pass    # `scs += counts` (impl AddAssign<&Count> for Scs adds 1.0 at the index)
+                else:
+                    ob.fail("inconclusive", "Standard site: spectrum update of an unrecognised form: " + scs[:200])
                 if f", {K}," in selfv:
                     ob.fail("violation", "Standard site changes the skipped counter")
             elif outer == "0" and inner == "1":    # Projected
                 kinds["projected"] = 1
                 if p.end != "loopback" or not sites_inc:
                     ob.fail("violation", "Projected site: the loop does not continue with sites + 1")
-                if not re.fullmatch(r".*Projected::<'_>::add_unchecked!mut1\(field\(as_Projected\(.*\), 0\), scs\)", scs):
-                    ob.fail("violation", "Projected site: the spectrum update is not `projected.add_unchecked(&mut scs)`: " + scs[:200])
+                if scs == "scs":
+                    ob.fail("violation", "Projected site: the record is not added to the spectrum")
+                elif not re.fullmatch(r".*Projected::<'_>::add_unchecked!mut1\(field\(as_Projected\(.*\), 0\), scs\)", scs):
+                    ob.fail("inconclusive", "Projected site: spectrum update of an unrecognised form (expected projected.add_unchecked(&mut scs)): " + scs[:200])
             elif outer == "0" and inner == "2":    # InsufficientData
                 if p.end == "loopback":
                     kinds["skipped"] = 1
